@@ -2,7 +2,7 @@
    The selection law (Model/Select.v = core.py:102-122, stochastic.py:207-209) and its use at every
    decision of every run of the generator model. *)
 From Coq Require Import List ZArith QArith Ascii String Bool.
-From GBS Require Import Model.PyStr Model.Num Model.Bond Model.Select Model.Gen Proofs.BondP Proofs.SelectP Props.GenExample.
+From GBS Require Import Model.PyStr Model.Num Model.Bond Model.Select Model.Gen Proofs.BondP Proofs.SelectP Props.GenExample Src.SrcBond Src.SrcCore Proofs.CoreSrcP.
 Import ListNotations.
 Open Scope Q_scope.
 
@@ -50,6 +50,18 @@ Theorem C08_zero_never : forall els pk tg r st,
                    end) (trace st).
 Proof. exact run_gen_events_good. Qed.
 Print Assumptions C08_zero_never.
+
+(* tie T: the candidate filter and the +1 rule written over the decision expressions REGENERATED from core.py (Src/SrcCore.v; the
+   statement skeletons of get_compatible_bond_descriptor_ids and choose_compatible_weight -- weights collected in candidate order, the
+   rule, `weights /= np.sum(weights)`, `rng.choice(compatible_idx, p=weights)` -- are checked by the translator; is_compatible is the
+   function regenerated from bond.py) are the selection model of the theorems in this file *)
+Theorem C08_candidates_are_source : forall l bond, compat_idx_src l bond = compat_idx l bond.
+Proof. exact compat_idx_is_source. Qed.
+Print Assumptions C08_candidates_are_source.
+
+Theorem C08_law_is_source : forall idx w, List.length idx = List.length w -> law_src idx w = law w.
+Proof. exact law_is_source. Qed.
+Print Assumptions C08_law_is_source.
 
 Example C08_example : law [1; 2; 1] = [1 / (1 + (2 + (1 + 0))); 2 / (1 + (2 + (1 + 0))); 1 / (1 + (2 + (1 + 0)))] /\
                       Forall (fun p => p == 1 # 2) (law [0; 0]).
